@@ -1,5 +1,5 @@
 """texts of MANIFEST.json entries (kept apart from the machinery)"""
-CATEGORY = {"C15": "model_checking"}
+CATEGORY = {}
 NOTES = "Contract-based deductive verification of the real code: tools/vx copies the functions each property depends on out of /repo/src by span on every run, applies the logged rewrite rules of DESIGN.md section 3, splices in the contracts of spec/*.vs and Verus discharges one obligation set per function. Exit 2 = undecided (never an alarm). Fix commits in /repo: see known_findings.json."
 NA = {
     "C17": "no contract can express that two tasks overlap in time or that one task's progress does not wait on another's: it is a statement about the executor and wall-clock, which rule R1 (.await removed) drops by construction and for which neither Verus nor Kani has a model (DESIGN.md section 7, C17)",
@@ -62,6 +62,10 @@ TEXT = {
     "C14": {
         "level": "Proof of the uniqueness/determinism half only: yaml::Config::load returns Ok only if no two loaded projects carry the same name; an import is accepted only if the imported project has a name equal to the import key; the name-keyed project map built from the loaded projects maps every project's name to a loaded project of that name. Totality and strictness of parsing are not applicable (third-party parser, no contract in reach).",
         "note": "Assumed: load_project / canonicalize_dir (A-yaml), collect into a HashMap (A-all), String extensionality, vstd specs.",
+    },
+    "C15": {
+        "level": "Proof, for every tree, path list and extension list, over strings as character sequences: list_files_in_path returns exactly the regular files at or below the path that are not inside a directory named .zinoma (at or below that path) and whose file name ends with one of the extensions (no extension set = no filter; a path without file name never matches a filter); items the walk reports as errors (a missing path) contribute nothing; list_files_in_paths / list_files_in_resources return the union; transform_extensions drops empty entries, adds a missing leading dot, and turns an empty result into 'no filter'; the checksum state (current / eq_current_state) and cleaning range over exactly the listing; the watcher's filter is the same extension function and, for a file found by the walk, the same .zinoma test - except in the two recorded findings (a regular file itself named .zinoma; a listed path that itself lies below a directory named .zinoma), which are printed as KNOWN-FINDING on every run.",
+        "note": "Assumed: walkdir (every entry at or below the root, parents first, links not followed, filter_entry prunes an entry with everything below it, an entry's path is the root path followed by the names down to it), Path::is_file as 'regular file' (follows links), the tree does not change during one walk (A-fs, A-walkdir); str ends_with/starts_with/==, format!(\".{}\"), OsStr::to_str/to_string_lossy, Path::file_name/components with the contracts written in spec/FS.vs (A-str); the iterator chains any / filter-map-collect / filter_entry-filter_map-collect / join_all-flatten-collect as stubs restating the chain over the verified closures, the Option adapters replaced by their definition (A-adapters). The closures themselves (13) are outlined mechanically and verified. Not covered: byte-level UTF-8 decoding, symlink loops, the order of the listing.",
     },
     "C16": {
         "level": "Proof, for every path and event: is_tmp_editor_file is total (no unwrap: a path without file name is not a temporary; non-UTF-8 names are decoded lossily) and equals `*~` or (`.*` and (`*.swp` or `*.swx`)); the event filter is exactly not-temporary and not-under-.zinoma and extension-match; a notify error or an event without relevant path sends nothing, an event with a relevant path does exactly one try_send whose full-slot result is not an error; a missing watched path is skipped, every declared path is handed to notify.",
